@@ -140,7 +140,7 @@ Definition omax (a b : option Z) : option Z :=
 (* Series._binop(other, func) for two series *)
 Definition binop (f : V -> V -> V) (s1 s2 : series) : res series :=
   match s_start s1, s_start s2 with
-  | None, None => Err 1
+  | None, None => Ok (empty_series (Nat.max (s_nv s1) (s_nv s2)))     (* both empty: the empty series *)
   | _, _ =>
       let mismatch := match s_start s1, s_start s2 with
                       | Some _, Some _ => negb (s_freq s1 =? s_freq s2)
